@@ -712,6 +712,9 @@ func RunC19Shredding(ctx *core.Ctx) {
 			var p c19Pending
 			for i := 0; i < total/nw; i++ {
 				c19ShredCase(ctx, r, &p, w == 0 && i < 2)
+				if i%2 == 0 {
+					c19NestedCases(ctx, r, &p) // the variant group below repeated / optional ancestors
+				}
 				if len(p.reqs) >= 1000 {
 					p.flush(ctx, d)
 				}
